@@ -350,7 +350,11 @@ func (e *executor) stepAt(toks []string, i int) int {
 		}
 		j := i + 1
 		var inner []string
-		for ; j < len(toks) && (strings.HasPrefix(toks[j], "f.") || strings.HasPrefix(toks[j], "r.")); j++ {
+		isInner := func(t string) bool {
+			return strings.HasPrefix(t, "f.") || strings.HasPrefix(t, "r.") || strings.HasPrefix(t, "x.") ||
+				strings.HasPrefix(t, "b4.") || strings.HasPrefix(t, "b6.") || t == "s"
+		}
+		for ; j < len(toks) && isInner(toks[j]); j++ {
 			inner = append(inner, toks[j])
 		}
 		if j >= len(toks) || (toks[j] != "z."+f[1]+".T" && toks[j] != "z."+f[1]+".F") {
@@ -363,9 +367,9 @@ func (e *executor) stepAt(toks []string, i int) int {
 		}
 		e.pings[pr.p] = pr
 		e.order = append(e.order, pr)
-		var hookLin []string
 		hookBad := ""
 		hookDone := make(chan struct{})
+		e.lin = append(e.lin, tok)
 		e.hconn.setHook(func(frame []byte) error {
 			dst, id, ok := decodeEchoRequest(frame)
 			if !ok || dst != pr.dstIP() {
@@ -374,6 +378,11 @@ func (e *executor) stepAt(toks []string, i int) int {
 			defer close(hookDone)
 			pr.id = id
 			for _, t := range inner {
+				// everything here happens while call p is still inside its WriteTo
+				if !strings.HasPrefix(t, "f.") && !strings.HasPrefix(t, "r.") {
+					e.stepAt([]string{t}, 0) // x.<n>, another call's b4/b6, a snapshot
+					continue
+				}
 				var fr []byte
 				if strings.HasPrefix(t, "r.") {
 					fr = lib.UnHex(t[2:])
@@ -382,7 +391,7 @@ func (e *executor) stepAt(toks []string, i int) int {
 					return nil
 				}
 				e.parseFrame(fr)
-				hookLin = append(hookLin, "r."+lib.Hex(fr))
+				e.lin = append(e.lin, "r."+lib.Hex(fr))
 			}
 			if !sendOK {
 				return errors.New("verif: write failed after delivering the reply")
@@ -395,8 +404,6 @@ func (e *executor) stepAt(toks []string, i int) int {
 		if hookBad != "" {
 			e.bad = hookBad
 		}
-		e.lin = append(e.lin, tok)
-		e.lin = append(e.lin, hookLin...)
 		e.lin = append(e.lin, toks[j])
 		e.lastNW = time.Now()
 		return j + 1
